@@ -597,7 +597,7 @@ pub fn check_main(def: &'static PropDef, opts: &CheckOpts) -> i32 {
 		"violations": viol_lines.len(),
 		"assumptions": def.assumptions,
 		"coverage": {
-			"evaluations": runs_done,
+			"evaluations": runs_done + crashes,
 			"distinct_nontrivial": keys.len(),
 			"rule": def.rule,
 			"samples": samples,
